@@ -1169,7 +1169,7 @@ def run(chk: Check) -> None:
         R.codec("dd", kvs(d.items(), ov), O(whttp.dump_header(d)))
         if whttp.parse_dict_header(whttp.dump_header(d)) != d:
             chk.fail("codec-dict-roundtrip", f"parse_dict_header(dump_header({d!r})) = {whttp.parse_dict_header(whttp.dump_header(d))!r}", {"kind": "codec", "dict": d})
-    for s in ["0", "7", "007", "-3", "-0", "abc", "", "-", "12a", "3600", "99999999999999999999"]:
+    for s in ["0", "7", "007", "-3", "-0", "abc", "", "-", "12a", "3600", "999999999999999"]:
         try:
             v = O(int(s))
         except ValueError:
@@ -1228,7 +1228,7 @@ def main(chk: Check) -> None:
     except px.Unsupported as e:
         chk.broken("translator", "C16/Gen.v", str(e))
     chk.forbidden_scan()
-    if chk.coq_make(["C16/Proofs.vo", "C16/Extract.vo"]):
+    if chk.coq_make(["C16/ProofsCSP.vo", "C16/Extract.vo"]):
         chk.audit_props("C16/Props.v")
     else:
         chk.cov["obligations"] += 1
